@@ -1,6 +1,7 @@
 import Driver.Common
 import IoraModel.Model.WsServer
 import IoraModel.Model.WsClient
+import IoraModel.Model.WsHandover
 namespace Iora.Driver.Ws
 open Iora Iora.Ws Iora.Driver
 
@@ -38,7 +39,7 @@ def showCEvs (evs : List CEv) : String :=
 def sampleAccept : Bytes := "s3pPLMBiTxaQ9kYGzzhZRbK+xOo=".toUTF8.toList
 
 structure St where
-  maxFrame : Nat := 16777216
+  maxFrame : Nat := Gen.Ws.serverDefaultMaxFrameSize
   cb : Cbs := {}
   sess : Sess := {}
   ccfg : CCfg := { accept := sampleAccept }
@@ -57,6 +58,29 @@ def showSt (s : Sess) : String :=
 def stepOp (st : St) (op : AppOp) : St × String :=
   let (s', evs) := Iora.Ws.step st.maxFrame st.cb st.sess op
   ({ st with sess := s' }, s!"{showEvs evs} | {showSt s'}")
+
+def hasDelivery (evs : List Ev) : Bool :=
+  evs.any (fun e => match e with | .text _ => true | .binary _ => true | _ => false)
+
+/-- `srv upgrade2 <trailing> <point> <r2>`: the hand-over with ONE read `r2` delivered by the I/O thread at a chosen point
+of the pool thread: `origin` before the mark, `connect` inside `_onConnect` (after mark and create, before the 101),
+`msg` inside the first message callback of the drain (equivalently: right after that `feed` step - a held read only
+appends to the session buffer, which `feed` does not touch), or after the pool thread is done if that point never comes -/
+def handover (maxBuf maxFrame : Nat) (cb : Cbs) (point : String) (r2 : Bytes) : Nat → Hand → Bool → List Ev → Hand × List Ev
+  | 0, h, _, acc => (h, acc)
+  | fuel + 1, h, injected, acc =>
+    let now := !injected && ((point == "origin" && h.pc == .mark) || (point == "connect" && h.pc == .respond) || h.pc == .done)
+    if now then
+      let (h1, e1) := hRead maxBuf maxFrame cb h r2
+      handover maxBuf maxFrame cb point r2 fuel h1 true (acc ++ e1)
+    else if h.pc == .done then (h, acc)
+    else
+      let (h1, e1) := hWorker maxFrame cb h
+      let wasFeed := match h.pc with | .feed _ => true | _ => false
+      if !injected && point == "msg" && wasFeed && hasDelivery e1 then
+        let (h2, e2) := hRead maxBuf maxFrame cb h1 r2
+        handover maxBuf maxFrame cb point r2 fuel h2 true (acc ++ e1 ++ e2)
+      else handover maxBuf maxFrame cb point r2 fuel h1 injected (acc ++ e1)
 
 /-- one scripted send: `t:<hex>` `b:<hex>` `p:<hex>` `c:<code>:<hex>` -/
 def parseSend (s : String) : Option Send :=
@@ -92,6 +116,7 @@ def step (st : St) : List String → St × String
     match code.toNat?, ofHex hx with
     | some c, some r => (st, toHex (serialize (makeClose c r)))
     | _, _ => (st, "bad-op")
+  | ["srv", "reset", "default"] => ({ st with maxFrame := Gen.Ws.serverDefaultMaxFrameSize, sess := {}, cb := {} }, "ok")
   | ["srv", "reset", max] =>
     match max.toNat? with
     | some m => ({ st with maxFrame := m, sess := {}, cb := {} }, "ok")
@@ -106,6 +131,25 @@ def step (st : St) : List String → St × String
       let (s', evs) := upgrade st.maxFrame st.cb d
       ({ st with sess := s' }, s!"{showEvs evs} | {showSt s'}")
     | none => (st, "bad-op")
+  | ["srv", "upgrade2", hx, point, hx2] =>
+    match ofHex hx, ofHex hx2 with
+    | some d, some r2 =>
+      if point == "origin" || point == "connect" || point == "msg" then
+        let (h, evs) := handover Gen.Ws.httpMaxBufferSize st.maxFrame st.cb point r2 64 (hInit d) false []
+        ({ st with sess := h.sess }, s!"{showEvs evs} | {showSt h.sess}")
+      else (st, "bad-op")
+    | _, _ => (st, "bad-op")
+  | ["srv", "upgradeh", u, c, k, v, hx] =>
+    match ofHex u, ofHex c, ofHex k, ofHex v, ofHex hx with
+    | some u, some c, some k, some v, some d =>
+      match upgradeDecision u c k v with
+      | .accept =>
+        let (s', evs) := upgrade st.maxFrame st.cb d
+        ({ st with sess := s' }, s!"{showEvs evs} | {showSt s'} held=0 upgraded=1")
+      | .reject status => ({ st with sess := { alive := false } }, s!"H:{status} | {showSt { alive := false }} held=0 upgraded=0")
+      | .notWebSocket => ({ st with sess := { alive := false } }, s!"H:404 | {showSt { alive := false }} held=0 upgraded=0")
+    | _, _, _, _, _ => (st, "bad-op")
+  | ["srv", "tclose"] => stepOp st .transportClosed
   | ["srv", "data", hx] =>
     match ofHex hx with
     | some d => stepOp st (.data d)
@@ -156,6 +200,10 @@ def step (st : St) : List String → St × String
   | ["cli", "sendClose", code, hx] =>
     match code.toNat?, ofHex hx with
     | some c, some d => stepCli st (.sendClose c d)
+    | _, _ => (st, "bad-op")
+  | ["cli", "disconnect", code, hx] =>
+    match code.toNat?, ofHex hx with
+    | some c, some d => stepCli st (.disconnect c d)
     | _, _ => (st, "bad-op")
   | _ => (st, "bad-op")
 
